@@ -55,6 +55,43 @@ func (c *Ctx) emissions() []*Emission {
 	lift = func(em *Emission, depth int) {
 		h := em.Fn
 		liftable := depth < 2 && h.Parent() == nil && c.F.Callbacks[h] == nil && len(c.callers[h]) > 0
+		// (1) a generic emitter: the helper is handed the event type and/or the payload itself
+		//     (collector.add(eventType, ts, payload)): every call site is an emission of what it passes
+		var typePrm, payloadPrm *ssa.Parameter
+		if liftable && em.Lifted == nil {
+			if prm, ok := resolve(em.Call.Call.Args[0]).(*ssa.Parameter); ok && prm.Parent() == h {
+				typePrm = prm
+			}
+			if len(em.Call.Call.Args) >= 3 {
+				pv := em.Call.Call.Args[2]
+				if mi, ok := pv.(*ssa.MakeInterface); ok {
+					pv = mi.X
+				}
+				if prm, ok := resolve(pv).(*ssa.Parameter); ok && prm.Parent() == h {
+					payloadPrm = prm
+				}
+			}
+		}
+		if liftable && payloadPrm != nil {
+			for _, cs := range c.callers[h] {
+				cv, ok := cs.Call.(*ssa.Call)
+				if !ok {
+					continue
+				}
+				le := &Emission{Fn: cs.Fn, Call: cv, Types: em.Types, Payload: em.Payload, Fields: map[string]ssa.Value{}, Stores: map[string][]ssa.Value{}, Ordinal: map[string]int{}, Lifted: h}
+				if typePrm != nil {
+					if i := paramIndex(typePrm); i < len(cv.Call.Args) {
+						le.Types = c.constStrings(cv.Call.Args[i], 0, map[ssa.Value]bool{})
+					}
+				}
+				if i := paramIndex(payloadPrm); i < len(cv.Call.Args) {
+					le.decodePayload(cv.Call.Args[i])
+				}
+				lift(le, depth+1)
+			}
+			return
+		}
+		// (2) a constructor: the payload literal is built from the helper's parameters and the event handed straight back
 		if liftable {
 			liftable = false
 			for _, v := range em.Fields {
